@@ -370,6 +370,145 @@ func (m *Machine) jsonToAny(srcT types.Type, src value) value {
 	panic(unsupported("json stub: " + typeString(srcT) + " into interface{}"))
 }
 
+// jsonDeepEqual: do two stored values marshal to the same JSON text? Decided
+// structurally (the text itself is behind the stub): same shape, same field
+// order, equal leaves. Symbolic leaves are not supported here.
+func (m *Machine) jsonDeepEqual(at types.Type, a value, bt types.Type, b value, depth int) bool {
+	if depth > 60 {
+		panic(unsupported("json stub: comparison too deep"))
+	}
+	for {
+		if ai, ok := a.(iface); ok {
+			bi, okb := b.(iface)
+			if !okb {
+				return false
+			}
+			if ai.t == nil || bi.t == nil {
+				return ai.t == nil && bi.t == nil
+			}
+			at, a, bt, b = ai.t, ai.v, bi.t, bi.v
+			continue
+		}
+		break
+	}
+	if isRawMessage(at) && isRawMessage(bt) {
+		ba, oka := m.blobOf(a)
+		bb, okb := m.blobOf(b)
+		if oka && okb {
+			return m.jsonDeepEqual(ba.t, ba.v, bb.t, bb.v, depth+1)
+		}
+	}
+	switch x := a.(type) {
+	case structure:
+		y, ok := b.(structure)
+		sa, oka := at.Underlying().(*types.Struct)
+		sb, okb := bt.Underlying().(*types.Struct)
+		if !ok || !oka || !okb || len(x) != len(y) {
+			return false
+		}
+		for i := range x {
+			fa, fb := jsonFieldInfo(sa, i), jsonFieldInfo(sb, i)
+			if fa.skip != fb.skip || fa.name != fb.name {
+				return false
+			}
+			if fa.skip {
+				continue
+			}
+			ea, eb := fa.omitempty && jsonEmpty(x[i]), fb.omitempty && jsonEmpty(y[i])
+			if ea != eb {
+				return false
+			}
+			if ea {
+				continue
+			}
+			if !m.jsonDeepEqual(sa.Field(i).Type(), x[i], sb.Field(i).Type(), y[i], depth+1) {
+				return false
+			}
+		}
+		return true
+	case array:
+		y, ok := b.(array)
+		if !ok || len(x) != len(y) {
+			return false
+		}
+		et := at.Underlying().(*types.Array).Elem()
+		for i := range x {
+			if !m.jsonDeepEqual(et, x[i], et, y[i], depth+1) {
+				return false
+			}
+		}
+		return true
+	case []value:
+		y, ok := b.([]value)
+		if !ok || len(x) != len(y) || (x == nil) != (y == nil) {
+			return false
+		}
+		var ea, eb types.Type
+		if st, ok := at.Underlying().(*types.Slice); ok {
+			ea = st.Elem()
+		}
+		if st, ok := bt.Underlying().(*types.Slice); ok {
+			eb = st.Elem()
+		}
+		if ea == nil || eb == nil {
+			return false
+		}
+		for i := range x {
+			if !m.jsonDeepEqual(ea, x[i], eb, y[i], depth+1) {
+				return false
+			}
+		}
+		return true
+	case *value:
+		y, ok := b.(*value)
+		if !ok || (x == nil) != (y == nil) {
+			return false
+		}
+		if x == nil {
+			return true
+		}
+		return m.jsonDeepEqual(deref(at), *x, deref(bt), *y, depth+1)
+	case *Map:
+		y, ok := b.(*Map)
+		if !ok || (x == nil) != (y == nil) {
+			return false
+		}
+		if x == nil {
+			return true
+		}
+		if x.Len() != y.Len() {
+			return false
+		}
+		ea := at.Underlying().(*types.Map).Elem()
+		eb := bt.Underlying().(*types.Map).Elem()
+		for _, e := range x.entries {
+			if e.deleted {
+				continue
+			}
+			v, found := m.mapLookup(y, e.k)
+			if !found || !m.jsonDeepEqual(ea, e.v, eb, v, depth+1) {
+				return false
+			}
+		}
+		return true
+	case string, int64, float64, bool:
+		return a == b
+	case *Sym, *SymStr:
+		panic(unsupported("json stub: comparing marshalled texts with symbolic content"))
+	}
+	panic(unsupported(fmt.Sprintf("json stub: comparing %T", a)))
+}
+
+// jsonTextsEqual: both byte slices are stub output -> structural comparison.
+func (m *Machine) jsonTextsEqual(a, b value) (bool, bool) {
+	ba, oka := m.blobOf(a)
+	bb, okb := m.blobOf(b)
+	if !oka || !okb {
+		return false, false
+	}
+	return m.jsonDeepEqual(ba.t, ba.v, bb.t, bb.v, 0), true
+}
+
 func registerJSON() {
 	externals["encoding/json.Marshal"] = func(m *Machine, fr *frame, a []value) value {
 		return m.jsonMarshal(a[0])
